@@ -175,7 +175,7 @@ class Run:
         self.n_programs = 0
         self.reported = 0
         self.notes = []
-        self.emit = {'compared': 0, 'disagreements': 0, 'modules_compared': 0, 'rt_check true': 0, 'rt_check false': 0, 'writable': 0, 'reread_compared': 0, 'reread_outside_reader_model': collections.Counter(), 'constructs': collections.Counter(), 'outcomes': collections.Counter(),
+        self.emit = {'compared': 0, 'disagreements': 0, 'renamed_and_compared': 0, 'modules_compared': 0, 'rt_check true': 0, 'rt_check false': 0, 'writable': 0, 'reread_compared': 0, 'reread_outside_reader_model': collections.Counter(), 'constructs': collections.Counter(), 'outcomes': collections.Counter(),
                      'skipped_outside_modelled_subset': collections.Counter(), 'skipped_not_expressible_as_nv': collections.Counter()}
         self.docq = []          # document-level correspondence: (source, design, real outcome)
         self.doc = {'compared': 0, 'disagreements': 0, 'unsupported': collections.Counter(), 'inexpressible': collections.Counter(),
